@@ -302,6 +302,18 @@ def run(case):
         fr = _same_frame(c, r)
         if fr:
             why.append(f"{fr} of the result differ from the source")
+        else:
+            # ... and they are the result's own: a coordinate added to one side afterwards must not show on the other
+            try:
+                import astropy.units as u_
+                r.global_coords.add("h_", "custom:h", 1 * u_.s)
+                c.global_coords.add("s2_", "custom:s2", 2 * u_.s)
+                if "h_" in c.global_coords or "s2_" in r.global_coords:
+                    why.append("the result and the source share their global coordinates (one added afterwards to one shows on the other)")
+                c.global_coords.remove("s2_")
+                r.global_coords.remove("h_")
+            except Exception as e:  # noqa
+                why.append(f"global coords of the result / source cannot be edited independently: {exc_name(e)}")
         if (c.mask is None) != (r.mask is None) or (c.mask is not None and not np.array_equal(c.mask, r.mask)):
             why.append("mask of the result differs from the source")
         # uncertainties
